@@ -111,17 +111,17 @@ class Obj:
                 from spacepackets.cfdp.tlv import EntityIdTlv
                 o.fault_location = EntityIdTlv(bytes(x[0])) if x else None
             elif f == "responses":
-                o.file_store_responses = [mk_fsresp(r) for r in x]
+                assign_list(o, "file_store_responses", [mk_fsresp(r) for r in x], False)
             elif f == "options":
                 from spacepackets.cfdp.tlv import CfdpTlv
                 from spacepackets.cfdp.tlv.defs import TlvType
-                o.options = [CfdpTlv(TlvType(t["t"]), bytes(t["v"])) for t in x] if x else None
+                assign_list(o, "options", [CfdpTlv(TlvType(t["t"]), bytes(t["v"])) for t in x], True)
             elif f == "srcname":
                 o.source_file_name = bytes(x).decode() if x else None
             elif f == "dstname":
                 o.dest_file_name = bytes(x).decode() if x else None
             elif f == "segs":
-                o.segment_requests = [(_i(s), _i(e)) for s, e in x]
+                assign_list(o, "segment_requests", [(_i(s), _i(e)) for s, e in x], False)
             elif f == "data":
                 assign_grown(o, "file_data", x)
             elif f == "meta":
@@ -165,6 +165,18 @@ class Obj:
             fresh = octs(fr.pack()) == raw
         return {"octets": raw, "plen": plen, "cached": cached, "again": again, "eq": eq, "caller": caller, "fresh": fresh,
                 "spview": spview, "sibling": sibling}
+
+
+def assign_list(o, attr, items, none_if_empty):
+    """Assign a list-valued attribute. If the object already holds a list (and the parity of the lengths says so), that SAME
+    list object is changed in place to the new content and handed to the setter again - what an application does that keeps
+    working on the list it once gave to / got from the PDU."""
+    cur = getattr(o, attr, None)
+    if isinstance(cur, list) and items and (len(cur) + len(items)) % 2 == 1:
+        cur[:] = items
+        setattr(o, attr, cur)
+    else:
+        setattr(o, attr, (items or None) if none_if_empty else items)
 
 
 def compare(exp, obs):
@@ -343,7 +355,12 @@ def rnd_event(rng, kind):
         return {"a": "set", "f": "data", "x": rb(rng, rng.choice([0, 1, 2, 17, 300]))}
     if kind == "uslp":
         return {"a": "framelen"} if rng.random() < 0.4 else {"a": "set", "f": "tfdz", "x": rb(rng, rng.choice([0, 1, 5, 60]))}
-    fault = lambda: [] if rng.random() < 0.3 else [rnd_id(rng, rng.choice([1, 2, 4, 8]))]
+    def fault():
+        if rng.random() < 0.3:
+            return []
+        if rng.random() < 0.3:          # one small entity number in a random width (entity-ID TLVs compare by number)
+            return [[0] * (rng.choice([1, 2, 4, 8]) - 1) + [7]]
+        return [rnd_id(rng, rng.choice([1, 2, 4, 8]))]
     if kind == "eof":
         return {"a": "set", "f": "fault", "x": fault()}
     if kind == "finished":
